@@ -59,6 +59,12 @@ def get_dimensionality(
         list: A list of clusters. Each entry in the list contains the indices
             of atoms in a cluster.
     """
+    # The periodic neighbour search assumes that the atoms lie inside the cell:
+    # work on a wrapped copy so that the result does not depend on which
+    # periodic image of an atom was stored.
+    if system.get_pbc().any():
+        system = system.copy()
+        system.wrap()
     system_1x = system
     pbc = system_1x.get_pbc()
     num_1x = system_1x.get_atomic_numbers()
